@@ -3,7 +3,10 @@
 Spec |= P : RunLoop.tla (runner loop, SF caches keyed as the code keys them, lazily created SFs, TMC/XS request
             plans, local memo, scale-variation operator memo, repeated get_result) model-checked exhaustively over all
             plans of a small kinematic universe: SlotsIdeal, CacheCoherent, AllFilledAtReturn, SlotsStable.
-Code ~ Spec: real Runner executions of seeded plans (permutations, duplicates, repeated Q2, dict field order,
+Spec -> Code: Emit_C14 - TLC draws request plans from the plan space of MC_RunLoop instantiated on the real kinematic
+            universe (observables incl. both card spellings, TMC modes, 1-3 points in either dict order, 1-2 calls); the
+            real runner executes them.
+Code ~ Spec: real Runner executions of these and of seeded plans (permutations, duplicates, repeated Q2, dict field order,
             points sitting exactly on the Nachtmann xi of other points and on grid nodes, cross sections, TMC modes,
             two get_result calls) are recorded (harness/recorder.py) and validated by Trace_C14: every step must be a
             step of RunLoop with the same drop_cache calls and the same computations, and the result digest must be
@@ -60,7 +63,8 @@ def universe():
                 nrow.append([])
         shift.append(srow)
         nodes.append(nrow)
-    hdr = dict(shift=shift, nodes=nodes, nf=[NFQ[q] for q in QSORT])
+    hdr = dict(shift=shift, nodes=nodes, nf=[NFQ[q] for q in QSORT],
+               user=[xid[x] for x in user[:4]], uq=[QSORT.index(q) + 1 for q in QS[:2]])   # what Emit_C14 may request
     return xg, user, xid, hdr
 
 
@@ -251,6 +255,16 @@ def run(ctx):
     ctx.cov["negative_control"] = "KeyMode=dictorder violates SlotsIdeal (TLC counterexample found)"
     # 2. recorded executions of the real runner
     plans, hdr, xid = make_plans(ctx.seed, q)
+    # specification -> code: plans drawn by TLC from the plan space of MC_RunLoop on the real universe (Emit_C14)
+    hf0 = ctx.dir / "emit.header.json"
+    hf0.write_text(json.dumps(hdr))
+    drawn = ctx.tlc_emit("Emit_C14", common.cfg_text(dict(N=16 if q else 200, MaxPts=3, OBS={"F2", "FL", "XS", "F2s"}, TMCS={0, 1, 2, 3}, MaxCalls=2),
+                                                     spec=None), env=dict(HEADER_FILE=str(hf0)), extra=["-seed", str(ctx.seed + 7)])
+    xof = {i: x for x, i in xid.items()}
+    for d in drawn:
+        plan = [(e["name"], [[[k, (xof[v] if k == "x" else QSORT[v - 1] if k == "Q2" else YVAL)] for k, v in kd] for kd in e["kins"]]) for e in d["plan"]]
+        plans.append((d["tmc"], d["ncalls"], plan))
+    ctx.cov["plans_drawn_by_tlc"] = len(drawn)
     jobs = [(i, t, n, p) for i, (t, n, p) in enumerate(plans)]
     raw = ctx.pmap(execute, jobs, chunksize=2)
     dig = {}
